@@ -6,7 +6,7 @@ import impl
 from metapype.model.node import Node
 
 TRUSTED = ["CPython id() of a dict is modelled as a never-reused reference (argument in DESIGN.md C13)",
-           "set_nsmap / sharing one dict object between unrelated nodes is used to *construct* states; only attach/declare/re-declare/remove are judged"]
+           "set_nsmap / sharing one dict object between unrelated nodes is used to *construct* states; attach/declare/re-declare/remove are judged by the property text, fix_nsmap by its frame (kids, outside nodes that share no dict object with the subtree) and by parent bindings being visible below"]
 PREFIXES = ["a", "b"]
 URIS = ["u1", "u2"]
 
@@ -34,6 +34,8 @@ def apply_impl(nodes, op):
         nodes[op[1]].set_nsmap({k_: v for k_, v in op[2]})
     elif k == "share":
         nodes[op[1]].set_nsmap(nodes[op[2]].nsmap)
+    elif k == "fix":
+        Node.fix_nsmap(nodes[op[1]])
 
 
 def state_of(nodes):
@@ -89,6 +91,7 @@ def all_ops(n, st, with_set):
             for m in range(n):
                 if m != x:
                     yield ["share", x, m]
+            yield ["fix", x]
 
 
 def judge(before, op, after):
@@ -97,6 +100,26 @@ def judge(before, op, after):
     ma = [dict(m) for m in after["maps"]]
     k = op[0]
     if k in ("set", "share"):
+        return None
+    if k == "fix":
+        # the bulk repair helper: below the node every child ends up seeing every binding of its parent, with the
+        # parent's value; outside the subtree nothing changes unless a dict OBJECT was shared across the subtree
+        # boundary before the call (only set_nsmap with one object on unrelated nodes produces that; Lean:
+        # C13_fix_leak_witness) - the same condition under which the model's cell-level frame is stated
+        target = op[1]
+        sub = subtree(kids_a, target)
+        for x in sub:
+            for c in kids_a[x]:
+                for q, v in ma[x].items():
+                    if ma[c].get(q) != v:
+                        return f"after fix_nsmap on node {target}, node {c} sees {q}->{ma[c].get(q)!r} but its parent {x} binds {q}->{v!r}"
+        strict = sub - {target}
+        inner = {before["share"][x] for x in strict}
+        for m in range(len(mb)):
+            if m not in sub and before["share"][m] not in inner and ma[m] != mb[m]:
+                return f"node {m} is outside the subtree of node {target} and shares no dict object with it, but fix_nsmap changed its bindings from {mb[m]} to {ma[m]}"
+        if kids_a != kids_b:
+            return "fix_nsmap changed the child lists"
         return None
     target = op[2] if k == "attach" else op[1]
     sub = subtree(kids_a, target)
@@ -160,7 +183,7 @@ def random_history(n, rng, length):
     for _ in range(length):
         st = state_of(nodes)
         ops = list(all_ops(n, st, True))
-        w = [3 if o[0] in ("attach", "declare") else 2 if o[0] == "remove" else 1 for o in ops]
+        w = [3 if o[0] in ("attach", "declare") else 2 if o[0] in ("remove", "fix") else 1 for o in ops]
         op = rng.choices(ops, w)[0]
         try:
             apply_impl(nodes, op)
@@ -218,7 +241,7 @@ def run(ctx):
     shared_states = sum(1 for t in trans if "share" in t[3] and len(set(t[3]["share"])) < len(t[3]["share"]))
     return {"evaluations": len(trans), "distinct_nontrivial": len({json.dumps([t[3], t[2]]) for t in trans}),
             "rule": "BFS over reachable states (child lists, map values, dict-object sharing partition) of 3 nodes to depth 5/6 with ops attach/declare/re-declare/remove over 2 prefixes x 2 URIs "
-                    "plus set_nsmap and cross-sharing of one dict object, and of 4 nodes to depth 3/4; random histories over 8 nodes; every op applied in every state. "
+                    "plus set_nsmap, cross-sharing of one dict object and fix_nsmap, and of 4 nodes to depth 3/4; random histories over 8 nodes; every op applied in every state. "
                     "distinct = (state, op); all non-trivial",
             "samples": samples, "corr_diffs": diffs, "oracle_fails": fails, "drift": drift,
             "distribution": {"ops": kinds, "states3": s1, "states4": s2, "transitions_from_states_with_shared_dicts": shared_states},
